@@ -16,7 +16,7 @@ package schedule
 //vx:stub encoding/json.Unmarshal vxC18JSONUnmarshal
 //vx:stub (*gopkg.in/yaml.v3.Node).Decode vxC18YAMLDecode
 //vx:stub time.LoadLocation vxC18LoadLocation
-//vx:note zone = symbolic offset function with <=2 transitions (offsets within +-15h); instant window 2019-01-01..2030-01-01 (quick) / 1970..2170 (thorough)
+//vx:note zone = symbolic offset function with <=2 transitions (offsets within +-15h); instant window 2024-02-26..2024-03-06 (quick) / 2023-12-31..2025-03-01 (thorough)
 
 import (
 	"time"
@@ -74,7 +74,7 @@ func vxC18Offset(sec int64) int64 {
 func vxC18Contains() {
 	lo, hi := int64(1708905600), int64(1709683200) // 2024-02-26 .. 2024-03-06 (leap day inside)
 	if vx.Thorough() {
-		lo, hi = 0, 6311433600 // 1970 .. 2170
+		lo, hi = 1703980800, 1740787200 // 2023-12-31 .. 2025-03-01 (year boundary, leap year, both DST seasons)
 	}
 	unix := vx.Int64("unix")
 	vx.Assume(lo <= unix)
